@@ -228,6 +228,7 @@ def run_pipeline(ctx, res, rng):
     if ctx['escalate']:
         n_cases = max(n_cases, 2000)
     terms, metas = [], []
+    shared = {}
     for i in range(n_cases):
         cv = rng.choice(CREDITS)
         flag = rng.random() < 0.7
@@ -241,12 +242,23 @@ def run_pipeline(ctx, res, rng):
                 if e['grade_decimal'] == 1:
                     e['ok'] = rng.choice([True, 'partial'])
         seen_attempts = []
-
-        def sched(n, cv=cv, seen=seen_attempts):
-            seen.append(n)
-            return cv
-        g = StringGrader(attempt_based_credit=sched, attempt_based_credit_msg=flag)
-        g.create_debuglog('x')
+        if rng.random() < 0.5:
+            # history: one long-lived grader per flag serves many calls (attempts in any order, credits changing
+            # between calls); the property makes every call a function of (schedule, attempt, result) alone
+            cell = shared.setdefault(flag, {})
+            cell['cv'], cell['seen'] = cv, seen_attempts
+            if 'g' not in cell:
+                cell['g'] = StringGrader(attempt_based_credit=(lambda n, cell=cell: (cell['seen'].append(n), cell['cv'])[1]),
+                                         attempt_based_credit_msg=flag)
+                cell['g'].create_debuglog('x')
+            g = cell['g']
+            res.distribution['pipeline_reused_grader'] = res.distribution.get('pipeline_reused_grader', 0) + 1
+        else:
+            def sched(n, cv=cv, seen=seen_attempts):
+                seen.append(n)
+                return cv
+            g = StringGrader(attempt_based_credit=sched, attempt_based_credit_msg=flag)
+            g.create_debuglog('x')
         import copy
         before = copy.deepcopy(entries)
         result = {'overall_message': '', 'input_list': entries} if multi else dict(entries[0])
@@ -332,23 +344,32 @@ def full_calls(ctx, res, rng):
     scheds = [LinearCredit(), LinearCredit(decrease_credit_after=2, decrease_credit_steps=3, minimum_credit=0.5),
               GeometricCredit(), GeometricCredit(factor=0), GeometricCredit(factor=1), ReciprocalCredit(),
               lambda n: 1, lambda n: 0, lambda n: 0.5]
-    n_cases = 300 if ctx['tier'] == 'quick' else 2500
+    n_cases = 600 if ctx['tier'] == 'quick' else 4000
+    pool, reused = {}, 0
     for i in range(n_cases):
         si = rng.randrange(len(scheds))
         sched = scheds[si]
         flag = rng.random() < 0.7
         att = rng.choice([-1, 0, 1, 2, 3, 4, 5, 6, 9, 30])
+        reuse = rng.random() < 0.6      # history: the same grader objects serve many calls, attempts in any order
         if rng.random() < 0.5:
             inp = rng.choice(['a', 'b', 'c', 'd', 'zzz'])
-            g1 = StringGrader(answers=answers, attempt_based_credit=sched, attempt_based_credit_msg=flag)
-            g0 = StringGrader(answers=answers)
+            key = (si, flag, 'single')
+            if not (reuse and key in pool):
+                pool[key] = (StringGrader(answers=answers, attempt_based_credit=sched, attempt_based_credit_msg=flag),
+                             StringGrader(answers=answers))
         else:
             k = rng.randint(2, 4)
             inp = [rng.choice(['a', 'b', 'c', 'd', 'zzz']) for _ in range(k)]
             ordered = rng.random() < 0.5
-            g1 = ListGrader(answers=[answers] * k, subgraders=StringGrader(), ordered=ordered,
-                            attempt_based_credit=sched, attempt_based_credit_msg=flag)
-            g0 = ListGrader(answers=[answers] * k, subgraders=StringGrader(), ordered=ordered)
+            key = (si, flag, k, ordered)
+            if not (reuse and key in pool):
+                pool[key] = (ListGrader(answers=[answers] * k, subgraders=StringGrader(), ordered=ordered,
+                                        attempt_based_credit=sched, attempt_based_credit_msg=flag),
+                             ListGrader(answers=[answers] * k, subgraders=StringGrader(), ordered=ordered))
+            else:
+                reused += 1
+        g1, g0 = pool[key]
         st0, r0 = core.guarded(g0, None, inp)
         st1, r1 = core.guarded(g1, None, inp, attempt=att)
         stm, rm = core.guarded(g1, None, inp)
@@ -381,6 +402,7 @@ def full_calls(ctx, res, rng):
                                   'flag': flag, 'attempt': att, 'input': inp, 'what': what})
         res.nontrivial.add(('call', si, flag, att, repr(inp)))
     res.distribution['full_grader_calls'] = n_cases
+    res.distribution['full_grader_calls_on_reused_list_graders'] = reused
 
 
 def out_of_domain_schedules(ctx, res):
